@@ -66,7 +66,7 @@ let case_chan k line lines =
     let nreq = ref 0 in
     let sock_tcp : (int, bool) Hashtbl.t = Hashtbl.create 16 in
     let sock_closed : (int, bool) Hashtbl.t = Hashtbl.create 16 in
-    let pending : (int, (int * reply_kind * bool) Queue.t) Hashtbl.t = Hashtbl.create 16 in  (* socket -> (id, kind, question_ok) *)
+    let pending : (int, (int * reply_kind option * bool) Queue.t) Hashtbl.t = Hashtbl.create 16 in  (* socket -> (id, kind, question_ok) *)
     let tx_sock : (int, int * int * bool) Hashtbl.t = Hashtbl.create 64 in   (* x<j> -> socket, qid, opt *)
     let ntx_total = ref 0 in
     let feats = Hashtbl.create 8 in
@@ -167,14 +167,28 @@ let case_chan k line lines =
         end else begin
           let tcp = (match Hashtbl.find_opt sock_tcp s with Some b -> b | None -> false) in
           let touched = ref [] in
-          List.iter (fun (id, kind, _) ->
-            match Hashtbl.find_opt by_qid id with
-            | Some qu ->
-              let same = in_flight qu && qu.sock = s in
-              if alive qu && not same then Hashtbl.replace feats "stale" ();
-              feed qu (IReply (zi !s_now, tcp, same, kind));
-              if not (List.memq qu !touched) then touched := qu :: !touched
-            | None -> ()) consumed;
+          (* the walk of read_answers: message by message, until one does not parse *)
+          let rec walk_msgs = function
+            | [] -> ()
+            | (id, Some kind, _) :: rest ->
+              (match Hashtbl.find_opt by_qid id with
+               | Some qu ->
+                 let same = in_flight qu && qu.sock = s in
+                 if alive qu && not same then Hashtbl.replace feats "stale" ();
+                 feed qu (IReply (zi !s_now, tcp, same, kind));
+                 if not (List.memq qu !touched) then touched := qu :: !touched
+               | None -> ());
+              walk_msgs rest
+            | (_, None, _) :: rest ->
+              (* process_answer fails: the connection is closed, every query still outstanding on it
+                 is re-queued; the messages behind it are lost *)
+              Hashtbl.replace feats "malformed" ();
+              if rest <> [] then Hashtbl.replace feats "malformed-not-last" ();
+              if !touched <> [] then Hashtbl.replace feats "malformed-after-requeue" ();
+              List.iter (fun qu -> if in_flight qu && qu.sock = s then feed qu (IConnClosed (zi !s_now, aRES_EBADRESP))) (queries_in_order ()) in
+          if List.length consumed > 1 then Hashtbl.replace feats "batch" ();
+          walk_msgs consumed;
+          (* ... and on every way out the requeue array is flushed *)
           List.iter flush (List.rev !touched)
         end) rl;
       (* timeout phase: every outstanding query whose deadline has passed, earliest first *)
@@ -195,6 +209,7 @@ let case_chan k line lines =
       let rcode = match get "rcode" with Some r -> String.uppercase_ascii r | None -> "NOERROR" in
       let noopt = get "noopt" = Some "1" in
       Hashtbl.replace feats ("rsp-" ^ String.lowercase_ascii rcode) ();
+      if get "trunc" <> None then None else
       let tc = get "tc" = Some "1" in
       if tc then Hashtbl.replace feats "rsp-tc" ();
       { r_drop = false; r_cookie_bad = false;
@@ -205,7 +220,7 @@ let case_chan k line lines =
             | "SERVFAIL" | "2" -> Some aRES_ESERVFAIL
             | "NOTIMP" | "4" -> Some aRES_ENOTIMP
             | "REFUSED" | "5" -> Some aRES_EREFUSED
-            | _ -> None) } in
+            | _ -> None) } |> Option.some in
     let rec walk = function
       | [] -> ()
       | l :: rest ->
@@ -302,11 +317,16 @@ let case_chan k line lines =
         if not (retry_accepts cfg qu.q0 tr) then
           diff k "query t%d: extracted acceptor rejects the trace (%d events)" qu.token (List.length tr)
       end) queries;
+    (* termination clause: the history ends with enough adv+proc rounds to use up every retry
+       budget; before the tear-down nothing may be outstanding *)
+    (match List.rev (List.filter_map (fun l -> match words l with ["QLEN"; n] -> Some n | _ -> None) lines) with
+     | n :: _ when n <> "0" -> fail k "query-never-terminates" "ares_queue_active_queries() = %s after the final rounds" n
+     | _ -> ());
     if !unfinished > 0 && List.exists (fun l -> starts_with "ENDSTATE" l) lines then begin
       (* the generator always ends with enough processing rounds for every query to use up its budget *)
       let pend = List.find_map (fun l -> match words l with "ENDSTATE" :: ws -> field "pending_tokens" ws | _ -> None) lines in
       ignore pend;
-      fail k "no-completion" "%d of %d queries still outstanding after the final rounds" !unfinished nq
+      fail k "query-never-terminates" "%d of %d queries still outstanding after the final rounds" !unfinished nq
     end;
     let fl = List.sort compare (Hashtbl.fold (fun key () acc -> key :: acc) feats []) in
     let fl = List.filter (fun f -> not (starts_with "rsp-" f)) fl @ (if List.exists (starts_with "rsp-") fl then ["replies"] else []) in
